@@ -21,6 +21,7 @@ var (
 	profC05 = sim.Profile{Name: "c05", Steps: 140, CanaryProb: 1, Hostile: 2.5, Churn: 1, Edits: 2.5, Holds: 1, Commands: 1.5, DupPods: 0.3, Affinity: -1, MaxNodes: 6}
 	profC15 = sim.Profile{Name: "c15", Steps: 120, CanaryProb: 1, Hostile: 1, Churn: 4, Edits: 2.5, Holds: 0.3, Commands: 0.5, DupPods: 0.3, Affinity: -1, MaxNodes: 9}
 	profC10 = sim.Profile{Name: "c10", Overrides: 4, Steps: 150, CanaryProb: 0.4, Hostile: 1, Churn: 2, Edits: 1.5, Holds: 0.3, Commands: 0.3, DupPods: 0.5, Affinity: -1, MaxNodes: 8, Converge: true}
+	profC19 = sim.Profile{Name: "c19", Steps: 140, CanaryProb: 1, Hostile: 1.5, Churn: 0.7, Edits: 1.5, Holds: 0.8, Commands: 5, DupPods: 0.2, Affinity: -1, MaxNodes: 5, Converge: true}
 	profC02 = sim.Profile{Name: "c02", Steps: 80, CanaryProb: 0.5, Hostile: 1.5, Churn: 1.5, Edits: 1.5, Holds: 0.7, Commands: 0.5, DupPods: 0.5, Affinity: -1, MaxNodes: 6, Converge: true, OldDS: 0.15}
 )
 
@@ -48,7 +49,7 @@ func registry() core.Registry {
 		"C12": one(&sim.Sim{Prop: "C12", P: profC12, NQuick: 500, NThor: 5000, FloorsQ: map[string]int{"C12.writes-judged": 20000}}, &sim.Sim{Prop: "C12", P: nested(profC12, 0.12), NQuick: 250, NThor: 2500, FloorsQ: map[string]int{}}),
 		"C13": one(&sim.Sim{Prop: "C13", P: profC13, NQuick: 500, NThor: 5000, FloorsQ: map[string]int{"C13.rs-creates-judged": 2000, "C13.rs-deletes-judged": 1500, "C13.podtemplate-judged": 5000}}, &sim.Sim{Prop: "C13", P: nested(profC13, 0.12), NQuick: 250, NThor: 2500, FloorsQ: map[string]int{}}),
 		"C05": one(&fn.C05{}, &sim.Sim{Prop: "C05", P: profC05, NQuick: 500, NThor: 6000, FloorsQ: map[string]int{"C05.sim-promotions-judged": 200, "C05.sim-reconciles-with-canary-candidate": 800}}, &sim.Sim{Prop: "C05", P: nested(profC05, 0.12), NQuick: 250, NThor: 3000, FloorsQ: map[string]int{}}),
-		"C06": one(&fn.C06{}, &sim.Sim{Prop: "C06", P: profC07, NQuick: 300, NThor: 4000, FloorsQ: map[string]int{"C06.sim-syncs-of-failed-canary": 12}}),
+		"C06": one(&fn.C06{}, &sim.Sim{Prop: "C06", P: profC07, NQuick: 300, NThor: 4000, FloorsQ: map[string]int{"C06.sim-syncs-of-failed-canary": 12}}, &sim.Sim{Prop: "C06", P: nested(profC07, 0.15), NQuick: 300, NThor: 4000, FloorsQ: map[string]int{}}, &sim.Sim{Prop: "C06", P: nested(profC19, 0.15), NQuick: 200, NThor: 3000, FloorsQ: map[string]int{}}),
 		"C09": one(&fn.C09{}, &sim.Sim{Prop: "C09", P: profC09, NQuick: 600, NThor: 6000, FloorsQ: map[string]int{"C09.acting-syncs": 2000, "C09.sim-creating-syncs-with-binding-ramp": 1500}}, &sim.Sim{Prop: "C09", P: nested(profC09, 0.12), NQuick: 300, NThor: 3000, FloorsQ: map[string]int{}}),
 		"C10": one(&fn.C10{}, &sim.Sim{Prop: "C10", P: profC10, NQuick: 400, NThor: 5000, FloorsQ: map[string]int{"C10.sim-creates-with-annotation": 600, "C10.sim-creates-with-setting": 300, "C10.sim-update-deletes-of-own-pods-judged": 100, "C10.sim-pods-judged-at-fixpoint": 500}}, &sim.Sim{Prop: "C10", P: nested(profC10, 0.12), NQuick: 200, NThor: 2500, FloorsQ: map[string]int{}}),
 		"C14": one(&fn.C14{}, &sim.Sim{Prop: "C14", P: profC14, NQuick: 400, NThor: 4000, FloorsQ: map[string]int{"C14.eds-status-writes-judged": 1500, "C14.rs-status-writes-judged": 2500, "C14.fixpoints-judged": 100}}, &sim.Sim{Prop: "C14", P: nested(profC14, 0.12), NQuick: 200, NThor: 2000, FloorsQ: map[string]int{}}),
@@ -56,7 +57,7 @@ func registry() core.Registry {
 		"C16": one(&fn.C16{}, &fn.C16Corpus{}, &fn.C16Fuzz{}),
 		"C17": one(&sim.C17{}),
 		"C18": one(&fn.C18{}, &sim.Sim{Prop: "C18", P: profC10, NQuick: 300, NThor: 4000, FloorsQ: map[string]int{"C18.sim-nodes-judged-at-fixpoint": 500}}),
-		"C19": one(&sim.C19{}),
+		"C19": one(&sim.C19{}, &sim.Sim{Prop: "C19", P: nested(profC19, 0.15), NQuick: 400, NThor: 5000, FloorsQ: map[string]int{}}, &sim.Sim{Prop: "C19", P: profC19, NQuick: 200, NThor: 3000, FloorsQ: map[string]int{}}),
 		"C20": one(&fn.C20{}),
 	}
 }
